@@ -557,6 +557,12 @@ func callSSA(i *interpreter, caller *frame, callpos token.Pos, fn *ssa.Function,
 			return ext(fr, args)
 		}
 		if fn.Blocks == nil {
+			// assembly routines with a pure-Go twin (math/big: addVV -> addVV_g ...)
+			if fn.Pkg != nil {
+				if g := fn.Pkg.Func(fn.Name() + "_g"); g != nil && g.Blocks != nil {
+					return callSSA(i, caller, callpos, g, args, nil)
+				}
+			}
 			panic("no code for function: " + name)
 		}
 	}
